@@ -60,14 +60,18 @@ def _close(a, b, tol=1e-12):
 
 
 def run_case(ctx, case, rec, d):
+    # the files for the different distances take turns under the SAME path (each overwrites the previous one): what is read
+    # must always be the file as it is now
     for di, dist in enumerate(DISTS):
-        _one_distance(ctx, dict(case, dist=dist), rec, os.path.join(d, 'dist%d' % di))
+        _one_distance(ctx, dict(case, dist=dist), rec, os.path.join(d, 'same_place'))
 
 
 def _one_distance(ctx, case, rec, d):
     from astropy import units as u
     from sedfitter.sed import SED
-    os.makedirs(d)
+    os.makedirs(d, exist_ok=True)
+    for old_b in [x for x in os.listdir(d) if x.startswith('b_')]:
+        os.remove(os.path.join(d, old_b))
     rng = np.random.default_rng(ctx['seed'] * 13 + case['n_wav'])
     n_ap, n_wav, A = case['n_ap'], case['n_wav'], case['A']
     dist = DIST_CM[case['dist']]
